@@ -226,3 +226,63 @@ M("c17-config-mutated", "C17", "C17.R6", "config.py", "    section = get_section
 M("c17-unknown-keys-kept", "C17", "C17.R6", "config.py", "                for key, value in section.items()\n                if key in settings_fields_names\n            }\n        )\n    except TypeError as exc:\n        missing_fields = settings_fields_names.difference(section)\n        raise MissingConfiguration(\n            f\"Missing configuration fields: {', '.join(missing_fields)}\"\n        ) from exc\n\n\ndef get_section", "                for key, value in section.items()\n            }\n        )\n    except TypeError as exc:\n        missing_fields = settings_fields_names.difference(section)\n        raise MissingConfiguration(\n            f\"Missing configuration fields: {', '.join(missing_fields)}\"\n        ) from exc\n\n\ndef get_section")
 M("c17-scalar-keyerror", "C17", "C17.R6", "config.py", "    except KeyError as exc:\n        raise MissingConfiguration(\n            \"Missing 'type' field for scalar definition\"\n        ) from exc", "    except KeyError:\n        raise")
 M("c17-benign-reorder", "C17", None, "settings.py", "        assert_string_is_valid_python_identifier(self.enums_module_name)\n        assert_string_is_valid_python_identifier(self.input_types_module_name)\n", "        assert_string_is_valid_python_identifier(self.input_types_module_name)\n        assert_string_is_valid_python_identifier(self.enums_module_name)\n")
+
+# ----------------------------------------------------------------------- C05
+M("c05-nonnull-still-nullable", "C05", "C05.R1", RFF, "            type_=type_.of_type,\n            context=context,\n            nullable=False,\n            class_name=class_name,\n            add_type_name=False,\n        )\n\n    raise ParsingError", "            type_=type_.of_type,\n            context=context,\n            nullable=True,\n            class_name=class_name,\n            add_type_name=False,\n        )\n\n    raise ParsingError")
+M("c05-list-items-inherit", "C05", "C05.R1", RFF, "        type_=cast(CodegenResultFieldType, type_.of_type),\n        context=context,\n        nullable=True,", "        type_=cast(CodegenResultFieldType, type_.of_type),\n        context=context,\n        nullable=nullable,")
+M("c05-list-always-optional", "C05", "C05.R1", RFF, "    return generate_list_annotation(slice_=slice_, nullable=nullable)", "    return generate_list_annotation(slice_=slice_, nullable=True)")
+M("c05-enum-always-optional", "C05", "C05.R2", RFF, "    context.enums.append(type_.name)\n    return generate_annotation_name(type_.name, nullable)", "    context.enums.append(type_.name)\n    return generate_annotation_name(type_.name, True)")
+M("c05-scalar-drops-flag", "C05", "C05.R1", RFF, "        return parse_scalar_type(type_=type_, nullable=nullable, context=context)", "        return parse_scalar_type(type_=type_, nullable=True, context=context)")
+M("c05-union-members-nullable", "C05", "C05.R1", RFF, "            type_=subtype,\n            context=context,\n            nullable=False,", "            type_=subtype,\n            context=context,\n            nullable=True,")
+M("c05-entry-nonnull", "C05", "C05.R1", RFF, "        type_=type_,\n        context=context,\n        nullable=True,\n        add_type_name=False,", "        type_=type_,\n        context=context,\n        nullable=False,\n        add_type_name=False,")
+M("c05-annotation-name-inverted", "C05", "C05.R2", "codegen.py", "    result = ast.Name(id=name)\n    return result if not nullable else generate_nullable_annotation(result)", "    result = ast.Name(id=name)\n    return result if nullable else generate_nullable_annotation(result)")
+M("c05-union-never-optional", "C05", "C05.R2", "codegen.py", "    result = ast.Subscript(value=ast.Name(id=UNION), slice=ast.Tuple(elts=types))\n    return result if not nullable else generate_nullable_annotation(result)", "    result = ast.Subscript(value=ast.Name(id=UNION), slice=ast.Tuple(elts=types))\n    return result")
+M("c05-mixin-makes-optional", "C05", "C05.R2", RFF, "    nullable_directives = (INCLUDE_DIRECTIVE_NAME, SKIP_DIRECTIVE_NAME)", "    nullable_directives = (INCLUDE_DIRECTIVE_NAME, SKIP_DIRECTIVE_NAME, \"mixin\")")
+M("c05-skip-not-optional", "C05", "C05.R2", RFF, "    nullable_directives = (INCLUDE_DIRECTIVE_NAME, SKIP_DIRECTIVE_NAME)", "    nullable_directives = (INCLUDE_DIRECTIVE_NAME,)")
+M("c05-conditional-no-default", "C05", "C05.R2", RFF, "        return annotation, generate_constant(None)\n\n    return annotation, None", "        return annotation, None\n\n    return annotation, None")
+M("c05-typename-str", "C05", "C05.R3", RFF, "    return generate_subscript(value=generate_name(LITERAL), slice_=slice_)", "    return generate_name(\"str\")")
+M("c05-typename-literal-skipped", "C05", "C05.R3", RFF, "    if field.name and field.name.value == TYPENAME_FIELD_NAME and typename_values:", "    if field.name and field.name.value == TYPENAME_ALIAS and typename_values:")
+M("c05-id-int", "C05", "C05.R4", CG + "constants.py", '    "ID": "str",', '    "ID": "int",')
+M("c05-unknown-scalar-str", "C05", "C05.R4", RFF, "    return generate_annotation_name(ANY, nullable)", "    return generate_annotation_name(\"str\", nullable)")
+M("c05-benign-kw-order", "C05", None, RFF, "        return parse_scalar_type(type_=type_, nullable=nullable, context=context)", "        return parse_scalar_type(nullable=nullable, type_=type_, context=context)")
+
+# ----------------------------------------------------------------------- C06
+IFF = CG + "input_fields.py"
+ITF = CG + "input_types.py"
+M("c06-list-items-inherit", "C06", "C06.R1", IFF, "type_=type_.of_type, nullable=True, custom_scalars=custom_scalars", "type_=type_.of_type, nullable=nullable, custom_scalars=custom_scalars")
+M("c06-nonnull-ignored", "C06", "C06.R1", IFF, "            type_=type_.of_type, nullable=False, custom_scalars=custom_scalars", "            type_=type_.of_type, nullable=nullable, custom_scalars=custom_scalars")
+M("c06-enum-never-optional", "C06", "C06.R1", IFF, "            generate_annotation_name(name=type_.name, nullable=nullable),\n            type_.name,", "            generate_annotation_name(name=type_.name, nullable=False),\n            type_.name,")
+M("c06-float-as-int", "C06", "C06.R2", IFF, "        return generate_constant(float(node.value))", "        return generate_constant(int(float(node.value)))")
+M("c06-bool-string", "C06", "C06.R2", IFF, "        return generate_constant(bool(node.value))", "        return generate_constant(str(node.value))")
+M("c06-null-default-dropped", "C06", "C06.R2", IFF, "    if isinstance(node, NullValueNode):\n        return generate_constant(None)\n", "")
+M("c06-list-first-only", "C06", "C06.R2", IFF, "                    for v in node.values\n", "                    for v in node.values[:1]\n")
+M("c06-object-keys-python", "C06", "C06.R2", IFF, "keys=[generate_constant(f.name.value) for f in node.fields],", "keys=[generate_constant(f.name.value.lower()) for f in node.fields],")
+M("c06-nullable-becomes-required", "C06", "C06.R4", IFF, "        return generate_constant(None)\n\n    return None\n\n\ndef parse_input_const_value_node", "        return None\n\n    return None\n\n\ndef parse_input_const_value_node")
+M("c06-default-ignored", "C06", "C06.R4", IFF, "    if node and node.default_value:\n        return parse_input_const_value_node(", "    if node and node.default_value and isinstance(node.type, NonNullTypeNode):\n        return parse_input_const_value_node(")
+M("c06-alias-drops-default", "C06", "C06.R4", ITF, "                field_with_alias.keywords.append(\n                    generate_keyword(value=field_implementation.value, arg=\"default\")\n                )", "                pass")
+M("c06-alias-drops-factory", "C06", "C06.R4", ITF, "                field_with_alias.keywords.extend(field_implementation.value.keywords)", "                pass")
+M("c06-populate-by-name-off", "C06", "C06.R4", D + "base_model.py", "        populate_by_name=True,\n", "")
+
+# ----------------------------------------------------------------------- C07
+SCF = CG + "scalars.py"
+M("c07-parse-always", "C07", "C07.R1", SCF, "    if data.parse_name:\n        return generate_subscript(", "    if data.type_name:\n        return generate_subscript(")
+M("c07-serialize-on-results", "C07", "C07.R1", SCF, "                        func=generate_name(BEFORE_VALIDATOR),\n                        args=[generate_name(data.parse_name)],", "                        func=generate_name(BEFORE_VALIDATOR),\n                        args=[generate_name(data.serialize_name)],")
+M("c07-after-validator", "C07", "C07.R1", CG + "constants.py", 'BEFORE_VALIDATOR = "BeforeValidator"', 'BEFORE_VALIDATOR = "AfterValidator"')
+M("c07-optional-inside-annotated", "C07", "C05.R4", RFF, "        if nullable:\n            annotation = generate_nullable_annotation(annotation)\n        return annotation\n\n    return generate_annotation_name(ANY, nullable)", "        return annotation\n\n    return generate_annotation_name(ANY, nullable)")
+M("c07-input-optional-dropped", "C07", "C07.R1", IFF, "            if nullable:\n                annotation = generate_nullable_annotation(annotation)\n            return (annotation, type_.name)", "            return (annotation, type_.name)")
+M("c07-scalar-import-missing", "C07", "C04.R4", SCF, "            imports.append(generate_import_from(names=[object_name], from_=module_name))", "            pass")
+M("c07-serialize-not-imported", "C07", "C04.R4", SCF, "name for name in (self.type_, self.serialize, self.parse) if name", "name for name in (self.type_, self.parse) if name")
+M("c07-convert-value-skips-lists", "C07", "C11.R7", A, "        if isinstance(value, list):\n            return [self._convert_value(item) for item in value]\n        return value", "        return value")
+
+# ----------------------------------------------------------------------- C03
+ARF = CG + "arguments.py"
+M("c03-key-python-name", "C03", "C03.R1", ARF, "            dict_.keys.append(generate_constant(org_name))", "            dict_.keys.append(generate_constant(name))")
+M("c03-optional-default-none", "C03", "C03.R1", ARF, "            defaults=[generate_name(UNSET_NAME) for _ in optional_args],", "            defaults=[generate_constant(None) for _ in optional_args],")
+M("c03-nullable-required", "C03", "C03.R1", ARF, "                optional_args.append(arg)\n            else:\n                required_args.append(arg)", "                required_args.append(arg)\n            else:\n                required_args.append(arg)")
+M("c03-required-optional", "C03", "C03.R1", ARF, "            else:\n                required_args.append(arg)\n", "            else:\n                optional_args.append(arg)\n")
+M("c03-value-other-name", "C03", "C03.R1", ARF, "            dict_.values.append(self._get_dict_value(name, used_custom_scalar))", "            dict_.values.append(self._get_dict_value(org_name, used_custom_scalar))")
+M("c03-alias-when-equal-only", "C03", "C03.R4", ITF, "            if name != org_name:\n                field_implementation.value = self._process_field_value(", "            if name == org_name:\n                field_implementation.value = self._process_field_value(")
+M("c03-alias-python-name", "C03", "C03.R4", ITF, "                    field_implementation=field_implementation, alias=org_name", "                    field_implementation=field_implementation, alias=name")
+M("c03-locals-not-renamed", "C03", "C03.R5", CLF, '                f"_{variable}" if variable in argument_names else variable', "                variable")
+M("c03-unset-sent-as-null", "C03", "C11.R7", S, "            if value is not UNSET\n", "")
+M("c03-exclude-unset-dropped", "C03", "C11.R7", A, "value.model_dump(by_alias=True, exclude_unset=True)", "value.model_dump(by_alias=True)")
